@@ -10,4 +10,5 @@ void  valloc_stats(unsigned long *live, unsigned long *bytes, unsigned long *bad
 void  valloc_fail_at(long k); // k >= 1: the k-th allocation from now returns NULL (one shot); 0: off
 unsigned long valloc_failures_fired(void);
 void  valloc_reset_counters(void);
+void  valloc_dump_live(void); // with env VALLOC_LEAKS=1: allocation backtraces of the blocks still held
 #endif
